@@ -150,9 +150,61 @@ def pathOK (p : Path) : Bool := p.all elemOK
 
 /-- the JSON form `readPointer` gives a token -/
 def tokJson (t : String) : Json :=
-  match atoi? t with
+  match indexToken? t with
   | some i => .num (intToFloatBits i)
   | none => if t == "-" then .num (intToFloatBits (-1)) else .str t
+
+theorem indexToken?_of_atoi_none {t : String} (h : atoi? t = none) : indexToken? t = none := by
+  simp [indexToken?, h]
+
+theorem indexToken?_toString {i : Int} (h0 : 0 ≤ i) (h : i < 2 ^ 63) :
+    indexToken? (toString i) = some i := by
+  unfold indexToken?
+  rw [atoi?_toString h0 h]
+  simp [h0]
+
+theorem escapesOK_cons_ne {c : Char} (h : c ≠ '~') (r : List Char) :
+    escapesOK (c :: r) = escapesOK r := by
+  rw [escapesOK.eq_def]
+  split
+  · rename_i heq; cases heq
+  · rename_i heq; injection heq with heq _; exact absurd heq h
+  · rename_i heq; injection heq with _ heq; rw [heq]
+
+theorem escapesOK_tilde (x : Char) (r : List Char) :
+    escapesOK ('~' :: x :: r) = ((x == '0' || x == '1') && escapesOK (x :: r)) := by
+  rw [escapesOK.eq_def]; rfl
+
+theorem escapesOK_tilde_nil : escapesOK ['~'] = false := by
+  rw [escapesOK.eq_def]; rfl
+
+/-- `escapesOK` holds of what `ptrEscape` writes, whatever follows it (a `/` or the end) -/
+theorem escapesOK_escChars_append : ∀ (l rest : List Char), escapesOK rest = true →
+    escapesOK (escChars l ++ rest) = true
+  | [], rest, h => h
+  | c :: r, rest, h => by
+    have ih := escapesOK_escChars_append r rest h
+    unfold escChars
+    by_cases h1 : c = '~'
+    · simp only [h1, if_true, List.cons_append]
+      rw [escapesOK_tilde, escapesOK_cons_ne (by decide)]
+      simpa using ih
+    · by_cases h2 : c = '/'
+      · simp only [h2, if_true, List.cons_append]
+        rw [if_neg (by decide)]
+        simp only [List.cons_append]
+        rw [escapesOK_tilde, escapesOK_cons_ne (by decide)]
+        simpa using ih
+      · simp only [h1, h2, if_false, List.cons_append]
+        rw [escapesOK_cons_ne h1]; exact ih
+
+theorem escapesOK_ptrText : ∀ toks : List String,
+    escapesOK (toks.flatMap (fun t => '/' :: escChars t.toList)) = true
+  | [] => rfl
+  | t :: r => by
+    simp only [List.flatMap_cons, List.cons_append]
+    rw [escapesOK_cons_ne (by decide)]
+    exact escapesOK_escChars_append t.toList _ (escapesOK_ptrText r)
 
 theorem idxTok_nonneg {i : Int} (h : 0 ≤ i) : idxTok i = toString i := by
   have : (i == -1) = false := by simp; omega
@@ -165,11 +217,12 @@ theorem go_tok {e : PathElem} (he : elemOK e = true) (r : List Json) :
   | key k =>
     simp only [elemOK, Bool.and_eq_true, Option.isNone_iff_eq_none, bne_iff_ne, ne_eq] at he
     have hk : (k == "-") = false := by simpa using he.2
-    simp only [elemTok, tokJson, he.1, hk, Bool.false_eq_true, if_false, newPathM.go]
+    simp only [elemTok, tokJson, indexToken?_of_atoi_none he.1, hk, Bool.false_eq_true, if_false,
+      newPathM.go]
     cases newPathM.go r <;> rfl
   | idx i =>
     simp only [elemOK, Bool.and_eq_true, decide_eq_true_eq] at he
-    simp only [elemTok, idxTok_nonneg he.1, tokJson, atoi?_toString he.1 (by omega), newPathM.go,
+    simp only [elemTok, idxTok_nonneg he.1, tokJson, indexToken?_toString he.1 (by omega), newPathM.go,
       floatTrunc_intToFloatBits (i := i) (by omega)]
     cases newPathM.go r <;> rfl
   | _ => simp [elemOK] at he
@@ -193,6 +246,7 @@ theorem idxRange_of_pathOK {p : Path} (h : pathOK p = true) : idxRange p := by
 theorem readPointer_eq (s : String) : readPointer s =
     (if s == "" then newPathM (.arr .raw [])
      else if !(s.startsWith "/") then .err
+     else if !(escapesOK s.toList) then .err
      else newPathM (.arr .raw ((((s.splitOn "/").drop 1).map ptrUnescape).map tokJson))) := rfl
 
 /-- **pointer round trip**: `readPointer` gives back the path `writePointerPath` wrote -/
@@ -215,7 +269,8 @@ theorem readPointer_write {p : Path} {s : String} (hp : pathOK p = true)
     have hsw : s.startsWith "/" = true := by
       rw [String.startsWith_string_iff, h]
       exact ⟨_, rfl⟩
-    simp only [hne, hsw, Bool.false_eq_true, if_false, Bool.not_true]
+    have hesc : escapesOK s.toList = true := by rw [h]; exact escapesOK_ptrText _
+    simp only [hne, hsw, hesc, Bool.false_eq_true, if_false, Bool.not_true]
     rw [splitOn_slash, h]
     have := splitOnP_tokens (· == '/') '/' (by simp)
       ((t :: r).map (fun t => escChars t.toList)) [] (by simp)
